@@ -1,2 +1,40 @@
-(* C02 — placeholder until the theorems are in place (see DESIGN.md). *)
-From Rend Require Import base.Bytes.
+(* C02 — L1 is only a cache. Statements only; proofs in orca/OrcaProofs.v. *)
+From Rend Require Import base.Bytes gen.Consts_gen spec.MapSpec orca.Types handlers.Std orca.Orcas
+  proto.Resp orca.OrcaSpec orca.OrcaProofs.
+Open Scope N_scope.
+
+(* two histories that differ only in their L1 evictions (any subset of keys, at any position),
+   started from any two L1 contents consistent with the same L2, give equivalent replies *)
+Theorem c02_evictions_invisible : forall p lck h h' l1 l1' l2,
+  map (fun st => (h_port st, h_now st, h_req st)) h = map (fun st => (h_port st, h_now st, h_req st)) h' ->
+  hist_ok p true lck h -> hist_ok p true lck h' ->
+  (forall now, sub_live now l1 l2) -> (forall now, sub_live now l1' l2) ->
+  let '(out, _, m2) := run_hist true lck h l1 l2 in
+  let '(out', _, m2') := run_hist true lck h' l1' l2 in
+  Forall2 (fun x y => (exists cs0, reply_equiv p (h_req (fst x)) (fst (snd x)) cs0 /\
+                                   reply_equiv p (h_req (fst x)) (fst y) cs0) /\ snd (snd x) = snd y)
+          (combine h out) out' /\
+  store_eq m2 m2'.
+Proof. exact evictions_invisible. Qed.
+Print Assumptions c02_evictions_invisible.
+
+(* whenever no command is in flight, every key L1 can serve is served by L2 with the same
+   value and flags (and L1's copy does not outlive L2's) — now and at any later time *)
+Theorem c02_l1_subset_l2 : forall p lck h l1 l2,
+  hist_ok p true lck h -> (forall now, sub_live now l1 l2) ->
+  let '(_, l1', l2') := run_hist true lck h l1 l2 in
+  forall now, last (map h_now h) 0 <= now -> sub_live now l1' l2'.
+Proof. exact l1_subset_l2_always. Qed.
+Print Assumptions c02_l1_subset_l2.
+
+(* an eviction (any set of keys) preserves the invariant by itself *)
+Theorem c02_evict_preserves : forall now l1 l2 ks, sub_live now l1 l2 -> sub_live now (evict l1 ks) l2.
+Proof. exact evict_preserves. Qed.
+Print Assumptions c02_evict_preserves.
+
+Example c02_nonvacuous :
+  let h := [mkH PMain 100 [] (RSet MSet [1] [2;3] 5 0 7 false); mkH PMain 101 [] (RGet [mkGI [1] 1 false] 0 false)] in
+  let h' := [mkH PMain 100 [] (RSet MSet [1] [2;3] 5 0 7 false); mkH PMain 101 [[1]] (RGet [mkGI [1] 1 false] 0 false)] in
+  map (fun st => (h_port st, h_now st, h_req st)) h = map (fun st => (h_port st, h_now st, h_req st)) h' /\
+  hist_ok Bin true false h /\ hist_ok Bin true false h'.
+Proof. exact c02_example. Qed.
